@@ -25,6 +25,18 @@ class Horizon(BaseException):
     "virtual clock went beyond the horizon"
 
 
+class Livelock(Horizon):
+    """the loop went through SPIN_LIMIT iterations without the virtual clock advancing and
+    without the run ending: something re-arms a zero-time wait for ever (handled like Horizon:
+    the run does not terminate)"""
+
+
+# the largest generated cases (1025 jobs completing in the same instant under a window of 3)
+# need about 30 iterations within one instant (evidence: max_loop_iterations_within_one_instant)
+SPIN_LIMIT = 200000
+max_spin_seen = [0]
+
+
 class _VSelector:
     def __init__(self, loop):
         self.loop = loop
@@ -122,6 +134,8 @@ class VLoop(base_events.BaseEventLoop):
     def __init__(self, horizon=10**6):
         super().__init__()
         self._vt = 0.0
+        self._spin_vt = 0.0
+        self._spin = 0
         self.horizon = horizon
         self._selector = _VSelector(self)
         self._clock_resolution = 1e-9
@@ -139,6 +153,14 @@ class VLoop(base_events.BaseEventLoop):
 
     # -- BaseEventLoop plumbing
     def _run_once(self):
+        if self._vt != self._spin_vt:
+            self._spin_vt = self._vt
+            if self._spin > max_spin_seen[0]:
+                max_spin_seen[0] = self._spin
+            self._spin = 0
+        self._spin += 1
+        if self._spin > SPIN_LIMIT:
+            raise Livelock()
         cb = self.iteration_cb
         if cb is not None:
             cb()                # between two batches of callbacks: a consistent point
